@@ -345,3 +345,11 @@ func (lex *Lexer) Lex() *token.Token {
 
 	return tkn
 }
+
+// ok (newline-symmetry): LF and CR alike
+func (lex *Lexer) isLabelEnd(p int) bool {
+	if len(lex.data) > p+1 && lex.data[p] == ';' && lex.data[p+1] != '\r' && lex.data[p+1] != '\n' {
+		return false
+	}
+	return true
+}
